@@ -4,6 +4,9 @@
 
 use derivative::Derivative;
 use log::Record;
+#[cfg(log4rs_verif)]
+use crate::verif_hooks::Mutex;
+#[cfg(not(log4rs_verif))]
 use parking_lot::Mutex;
 use std::{
     fs::{self, File, OpenOptions},
